@@ -66,12 +66,18 @@ def normalise(term):
     return sp.factor(num), sp.factor(den)
 
 
+SLOW = [0]      # queries that needed more than a quarter of their time budget (robustness indicator, read by env)
+
+
 def _check(hyps, claim, timeout_ms):
     s = z3.Solver()
     s.set('timeout', int(timeout_ms))
     s.add(*hyps)
     s.add(z3.Not(claim))
+    t0 = time.time()
     r = s.check()
+    if (time.time() - t0) * 1000 > 0.25 * timeout_ms:
+        SLOW[0] += 1
     return str(r), (s.model() if r == z3.sat else None)
 
 
